@@ -481,10 +481,10 @@ add_response_header_connection (struct MHD_Response *response,
         new_hdr->value_size = pos;
         new_hdr->kind = MHD_HEADER_KIND;
         if (value_has_close)
-          response->flags_auto = (MHD_RAF_HAS_CONNECTION_HDR
-                                  | MHD_RAF_HAS_CONNECTION_CLOSE);
+          response->flags_auto |= (MHD_RAF_HAS_CONNECTION_HDR
+                                   | MHD_RAF_HAS_CONNECTION_CLOSE);
         else
-          response->flags_auto = MHD_RAF_HAS_CONNECTION_HDR;
+          response->flags_auto |= MHD_RAF_HAS_CONNECTION_HDR;
         _MHD_insert_header_first (response, new_hdr);
         return MHD_YES;
       }
